@@ -84,11 +84,13 @@ Definition print_lit (v : str) : str := if odd_trailing_bs v then v ++ [BS] else
 (* the Minify decision of Printer.wordPart for a simple long ${name}:
      case len(name) > 1 && !ValidName(name):   keep ${10}
      case ValidName(name + litCont):           keep ${var}cont
+     case litCont == "[":                      keep ${var}[index]  (zsh would index $var[..])
      default:                                  print $name
    litCont is the first byte of the next part when that is a non-empty Lit, else ';' *)
 Definition minify_shortens (name : str) (lit_cont : N) : bool :=
   if (Nat.ltb 1 (length name)) && negb (valid_name name) then false
   else if valid_name (name ++ [lit_cont]) then false
+  else if lit_cont =? 91 then false
   else true.
 
 Definition print_param (short : bool) (name : str) : str :=
